@@ -27,6 +27,15 @@ def seeds():
                                                     m.get("verdict", "?"), cell(m.get("check_result", ""))[:400]))
     return "\n".join(out)
 
+def benign():
+    out = ["| Change | Kind | Summary | Outcome of the check |", "|---|---|---|---|"]
+    for mp in sorted(glob.glob(os.path.join(V, "benign", "*", "*", "meta.json"))):
+        m = json.load(open(mp)); pid = mp.split(os.sep)[-3]; n = mp.split(os.sep)[-2]
+        cell = lambda s: str(s).replace("|", "\\|").replace("\n", " ")
+        out.append("| %s/%s | %s | %s | %s |" % (pid, n, m.get("kind", "?"), cell(m.get("summary", ""))[:260], cell(m.get("outcome", ""))[:260]))
+    return "\n".join(out)
+
+
 def status():
     out = []
     ids = [json.loads(l)["id"] for l in open(os.path.join(V, "properties.jsonl"))]
@@ -53,7 +62,7 @@ def status():
 
 def main():
     p = os.path.join(V, "DESIGN.md"); s = open(p).read()
-    for name, body in (("FINDINGS", findings()), ("SEEDS", seeds()), ("STATUS", status())):
+    for name, body in (("FINDINGS", findings()), ("SEEDS", seeds()), ("STATUS", status()), ("BENIGN", benign())):
         pat = re.compile(r"(<!-- BEGIN %s -->\n).*?(<!-- END %s -->)" % (name, name), re.S)
         if not pat.search(s):
             raise SystemExit("marker %s missing in DESIGN.md" % name)
